@@ -66,7 +66,13 @@ def run_property(pid, tier="quick", seed=0):
 
     # 2. symbolic exploration
     budget = plan.get("time_budget", 420 if tier == "quick" else 2400)
-    agg = core.explore(hnames, tier=tier, opts=opts, time_budget=budget)
+    # solver-heavy harnesses can be given a phase of their own (no competition for the cores)
+    phases = plan.get("phases") or [hnames]
+    agg = {}
+    t_dead = time.time() + budget
+    for ph in phases:
+        left = max(30.0, t_dead - time.time())
+        agg.update(core.explore(ph, tier=tier, opts=dict(opts), time_budget=left))
 
     # 3. vacuity: every expected obligation reached on a feasible path, for every case
     for hn in hnames:
